@@ -33,6 +33,7 @@ ASSUMPTIONS = common.BASE_ASSUMPTIONS + [
 ]
 REAL_VS_STUB = common.REAL_VS_STUB
 QUICK_RUNS = 36000
+LONG_RUN_EVERY = 173  # one constructive wire in 173 starts with >= 1100 tiny frames (accepted or rejected)
 EXPECTED_PROBES = {
     t: ["constructive_wires", "relational_wires", "handler_calls>=2", "raise_after_>=1_item", "raise_completes_clean", "rejected_ubx", "rejected_nmea", "rejected_rtcm", "logger_records"]
     for t in ("quick", "thorough")
@@ -60,6 +61,10 @@ def generate(seed: int, tier: str = "quick") -> dict:
     if constructive:
         cfg["protfilter"] = 7
         frames = common.gen_frames(r_dev, n, cfg, mix=r_cfg.choice((None, {"ubx": 1, "ubxc": 5, "nmea": 4, "rtcm": 3})))
+        if seed % LONG_RUN_EVERY == LONG_RUN_EVERY - 1:
+            run, style = common.long_run_frames(r_dev, pre)
+            if style not in ("unknown_hdr", "noise"):
+                frames = run + frames[:3]
         frames = common.frame_level_faults(r_lnk, frames, pre)
         common.corrupt_preserving(r_lnk, frames, pre, p=r_cfg.choice((0.1, 0.3, 0.6)))
         frames = common.add_noise(r_lnk, frames, pre, p=r_cfg.choice((0.0, 0.2)))
@@ -70,10 +75,22 @@ def generate(seed: int, tier: str = "quick") -> dict:
     tr = common.draw_transport(r_sch, wire_len, spans, kinds=("file", "file", "socket"))
     if tr["kind"] == "socket":
         cfg["bufsize"] = r_sch.choice(sched.BUFSIZES)
+    elif not constructive and r_sch.random() < 0.3:
+        # streams that hand out short reads in the MIDDLE of the data (slow device drivers, serial
+        # ports with a timeout): frames are lost to "terminated unexpectedly" errors - alike under every policy
+        if r_sch.random() < 0.5:
+            tr = {"kind": "capfile", "cap": r_sch.choice((3, 7, 16, 20, 40, 64))}
+        else:
+            sizes = sched.random_segments(r_sch, wire_len, spans)
+            segs = sched.timed_segments(r_sch, sizes, 1.0)
+            for s in segs:
+                if r_sch.random() < 0.3:
+                    s[0] = round(s[0] + 2.0, 6)
+            tr = {"kind": "serial", "segments": segs, "timeout": 1.0}
     cfg["handler_kind"] = r_cfg.choice(("function", "function", "method", "method", "falsy_callable", "raise_once", "returns_value", "returns_false", "error_attr_data", "error_attr_method"))
     if tr["kind"] == "file" and r_sch.random() < 0.15:
         tr = {"kind": "pipe"}
-    if constructive and r_cfg.random() < 0.2 and frames:
+    if constructive and r_cfg.random() < 0.2 and frames and len(frames) < 40:
         # pauses longer than the socket timeout, placed exactly BETWEEN frames; the application asks
         # again after each end of stream.  Frame boundaries - and therefore the per-frame verdicts -
         # are untouched, so the constructive oracle still applies.
